@@ -154,7 +154,7 @@ def nontrivial_history(ops):
 
 def stack_correspondence(ctx):
     r = ctx.rng
-    n = scaled(6000 if not ctx.thorough() else 60000)
+    n = scaled(4000 if not ctx.thorough() else 60000)
     lines, meta = [], []
     for i in range(n):
         kind = ("deep", "wide", "mix", "mix")[i % 4]
@@ -162,7 +162,7 @@ def stack_correspondence(ctx):
             ops = gen_history(r, kind, wf)
             lines.append(("W " if wf else "S ") + ",".join(ops))
             meta.append((ops, wf))
-    m = run_driver_sharded("ns", lines, shards=8)
+    m = run_driver_sharded("ns", lines, shards=2)
     im, err = run_sharded(lines)
     ctx.stats["stack_histories"] = len(lines)
     ctx.stats["stack_ops"] = sum(len(o) for o, _ in meta)
@@ -221,7 +221,9 @@ def first_diff(a, b):
 # ====================================================================================== (b) documents
 LOCALS = ["a", "b", "c", "item", "x"]
 NORMAL_URIS = ["u:0", "u:1", "u:2", "urn:x:y", "http://e.org/ns"]
-NORMAL_PFX = ["p", "q", "r", "ns1", "xsl"]
+NORMAL_PFX = ["p", "q", "r", "ns1", "xsl", "xmlnsx"]
+# names that look like namespace machinery but are ordinary: `p:xmlns="…"` is an attribute {uri-of-p}xmlns, not a declaration
+LOOKALIKE_LOCALS = ["xmlns", "xml", "xmlns2"]
 
 class Elem:
     def __init__(self, pre, loc):
@@ -272,7 +274,7 @@ def gen_elem(r, chain, depth, budget, v11, shape):
         if bound and k < 55: return r.choice(bound)
         if k < 58: return "xml"
         return ""
-    e = Elem(pick_prefix(False), r.choice(LOCALS))
+    e = Elem(pick_prefix(False), r.choice(LOOKALIKE_LOCALS) if r.chance(1, 25) else r.choice(LOCALS))
     attrs = []
     seen_q, seen_x = set(), set()
     na = r.choice([0, 0, 1, 1, 2, 3])
@@ -280,7 +282,12 @@ def gen_elem(r, chain, depth, budget, v11, shape):
         na = 101 + r.below(40)
     for i in range(na):
         p = pick_prefix(True)
-        l = ("lang" if p == "xml" else r.choice(LOCALS)) if na < 20 else "n%d" % i
+        if na >= 20: l = "n%d" % i
+        elif p == "xml": l = "lang"
+        elif r.chance(1, 8):
+            l = r.choice(LOOKALIKE_LOCALS)
+            if not p and l == "xmlns": l = "xml"      # unprefixed `xmlns` IS the default-namespace declaration
+        else: l = r.choice(LOCALS)
         u = scope_lookup(mychain, p) if p else None
         if (p, l) in seen_q or (u, l) in seen_x:
             continue
@@ -482,12 +489,14 @@ def parse_impl(line):
     return errs, exc, body
 
 def run_sharded(lines, harness="hx_ns", shards=None):
-    shards = shards or 16          # fixed: parsers are reused inside a shard, so the split must not depend on the machine
+    shards = shards or 4           # fixed: parsers are reused inside a shard, so the split must not depend on the machine
     common.build_harness(harness)
     chunks = [lines[i::shards] for i in range(shards)]
     def one(ch):
         if not ch: return [], ""
-        p = common.run_harness(harness, input=("\n".join(ch) + "\n").encode())
+        # a small ASan quarantine: the default (256 MB per process) costs most of the run in page faults
+        env = {"ASAN_OPTIONS": common.HENV["ASAN_OPTIONS"] + ":quarantine_size_mb=8"}
+        p = common.run_harness(harness, input=("\n".join(ch) + "\n").encode(), env=env)
         o = p.stdout.decode(errors="replace").split("\n")
         if o and o[-1] == "": o.pop()
         if p.returncode != 0 and len(o) < len(ch):
@@ -572,7 +581,11 @@ def compare_tokens(d, sc, api, got, want_model, want_spec):
     the expectations.  want_spec for dom has sets in P^ tokens."""
     res = []
     if len(got) != len(want_spec):
-        return [("ns-report-differs:" + api, True, "different number of events/nodes: %d vs %d" % (len(got), len(want_spec)))]
+        k = next((i for i, (g, w) in enumerate(zip(got, want_spec)) if g != w), min(len(got), len(want_spec)))
+        return [("ns-report-differs:" + api, True,
+                 "%d events/nodes reported, Spec %d; first difference at token %d: reported %s, Spec %s" % (
+                     len(got), len(want_spec), k, got[k] if k < len(got) else "<end>",
+                     want_spec[k] if k < len(want_spec) else "<end>"))]
     for i, (g, ws) in enumerate(zip(got, want_spec)):
         wm = want_model[i] if i < len(want_model) else None
         if g == wm and (api != "dom" or not ws.startswith("P")):
@@ -660,7 +673,7 @@ def verify_history_dependent(ctx):
 
 def doc_correspondence(ctx, use_model=True):
     r = ctx.rng
-    ndocs = scaled(1200 if not ctx.thorough() else 12000)
+    ndocs = scaled(800 if not ctx.thorough() else 12000)
     docs = [gen_doc(r, i, ctx.thorough()) for i in range(ndocs)]
     total = 0
     distinct = set()
@@ -670,13 +683,14 @@ def doc_correspondence(ctx, use_model=True):
     batch = 3000
     for b0 in range(0, ndocs, batch):
         chunk = docs[b0:b0 + batch]
-        sp = {}
-        for api in ("err",) + APIS:
-            sp[api] = run_driver_sharded("nsspec", [driver_lines(d, api) for d in chunk])
+        apis5 = ("err",) + APIS
+        dl = [driver_lines(d, api) for api in apis5 for d in chunk]      # one driver call per area (process start-up dominates)
+        so = run_driver_sharded("nsspec", dl, shards=2)
+        sp = {api: so[k * len(chunk):(k + 1) * len(chunk)] for k, api in enumerate(apis5)}
         mo = {}
         if use_model:
-            for api in ("err",) + APIS:
-                mo[api] = run_driver_sharded("nsmodel", [driver_lines(d, api) for d in chunk])
+            mm = run_driver_sharded("nsmodel", dl, shards=2)
+            mo = {api: mm[k * len(chunk):(k + 1) * len(chunk)] for k, api in enumerate(apis5)}
         hl = [harness_line(d, sc, api) for d in chunk for sc in SCANNERS for api in APIS]
         out, err = run_sharded(hl)
         check_sanitizer(ctx, err, "document parses")
